@@ -87,7 +87,8 @@ func methodTable(receiver interface{}) []GMethod {
 			g.Args = append(g.Args, kindName(at))
 		}
 		switch m.Type.NumOut() {
-		case 0, 1:
+		case 1: // (no production receiver has a method without results; the registry refuses those,
+			// although the comment on methodErrPos lists () as supported - outside the properties)
 			g.RetOK = true
 		case 2:
 			g.RetOK = m.Type.Out(1) == typeOfError
